@@ -9,6 +9,7 @@ package main
 
 import (
 	"fmt"
+	"go/types"
 	"sort"
 	"strings"
 
@@ -36,6 +37,106 @@ var confirmedPanicCount = map[string]int{
 	"bitmap.Select32": 1, "size.sizeof": 1, "pbcmpl.newHeader": 1, "bitmap.intFmt": 1,
 	"bmtree.bitmapSizeCheck": 2, "bmtree.bitmapMustHaveLevel": 1, "bmtree.pathCheck": 3, "bmtree.bitmapPathMustHaveEqualHeight": 1,
 	"bmtree.PathToIndex$1": 0, "bmtree.PathToIndexLoose$1": 0, "bmtree.PathToIndex": 1, "bmtree.PathToIndexLoose": 1,
+}
+
+// ReportDeadLoads (R-DEADLOAD): an element access whose value is never used (`_ = x[k]`, a bounds-check hint) has
+// exactly one effect: it panics when k is out of range. The library has none; a hint added "to hoist the bounds
+// check" runs unconditionally, also for the empty range / empty container for which the guarded accesses it
+// stands for are never executed.
+func ReportDeadLoads(w *World, r *Report, names ...string) {
+	r.Rule("R-DEADLOAD", "no element of a slice, array or string is loaded in the property's functions without its value being used: such a bounds-check hint can only panic, and it does so for the empty range or empty container whose guarded accesses never run")
+	for _, n := range names {
+		fn := findFunc(w, n)
+		if fn == nil || fn.Blocks == nil {
+			continue
+		}
+		bad := ""
+		nld := 0
+		fns := append([]*ssa.Function{fn}, fn.AnonFuncs...)
+		for _, f := range fns {
+			eachInstr(f, func(ins ssa.Instruction) {
+				var v ssa.Value
+				switch x := ins.(type) {
+				case *ssa.UnOp:
+					if x.Op.String() != "*" {
+						return
+					}
+					if _, ok := x.X.(*ssa.IndexAddr); !ok {
+						return
+					}
+					v = x
+				case *ssa.Index:
+					v = x
+				case *ssa.Lookup:
+					if x.CommaOk {
+						return
+					}
+					if _, isMap := x.X.Type().Underlying().(*types.Map); isMap {
+						return
+					}
+					v = x
+				default:
+					return
+				}
+				nld++
+				if refs := v.Referrers(); refs == nil || len(*refs) == 0 {
+					// redundant hint: the same block goes on to access the same container at the same index, or slices it
+					// up to that index + 1: the hint panics exactly when that access would
+					if redundantHint(w.FA(f), ins) {
+						return
+					}
+					bad = "the element loaded at " + w.InstrPos(ins) + " is never used: the access can only panic (a bounds-check hint runs even when the accesses it stands for do not)"
+				}
+			})
+		}
+		r.Check(bad == "", "R-DEADLOAD", n, w.Pos(fn.Pos()), bad, fmt.Sprintf("%d element loads, all used", nld))
+	}
+}
+
+func redundantHint(fa *FA, ins ssa.Instruction) bool {
+	var cont, idx ssa.Value
+	switch x := ins.(type) {
+	case *ssa.UnOp:
+		ia, ok := x.X.(*ssa.IndexAddr)
+		if !ok {
+			return false
+		}
+		cont, idx = ia.X, ia.Index
+	case *ssa.Index:
+		cont, idx = x.X, x.Index
+	case *ssa.Lookup:
+		cont, idx = x.X, x.Index
+	default:
+		return false
+	}
+	il := fa.Lin(idx)
+	after := false
+	for _, i2 := range ins.Block().Instrs {
+		if i2 == ins {
+			after = true
+			continue
+		}
+		if !after {
+			continue
+		}
+		switch y := i2.(type) {
+		case *ssa.Slice:
+			if fa.VN(y.X) == fa.VN(cont) && y.High != nil && fa.Lin(y.High).Eq(il.Add(linConst(1))) {
+				return true
+			}
+		case *ssa.IndexAddr:
+			if fa.VN(y.X) == fa.VN(cont) && fa.Lin(y.Index).Eq(il) && y.Referrers() != nil && len(*y.Referrers()) > 0 && ssa.Instruction(y) != ins {
+				if u, ok := ins.(*ssa.UnOp); !ok || u.X != ssa.Value(y) {
+					return true
+				}
+			}
+		case *ssa.Index:
+			if fa.VN(y.X) == fa.VN(cont) && fa.Lin(y.Index).Eq(il) {
+				return true
+			}
+		}
+	}
+	return false
 }
 
 func ReportPanicSites(w *World, r *Report, names ...string) {
